@@ -91,6 +91,8 @@ SeenAtRetry(ps) == Tokenize(RecordAll(SeenAtStart(ps)))
 \* additionally sees a variable k - the given values are all there.
 PosView(xs) == [i \in DOMAIN xs |-> Stringify(xs[i])]
 NamedView(xs) == {<<xs[i].name, xs[i].value>> : i \in {j \in DOMAIN xs : xs[j].name # <<>>}}
+\* the retry is recorded as a new run, with the parameters as IT saw them, and can be retried in turn
+SeenAtRetry2(ps) == Tokenize(RecordAll(SeenAtRetry(ps)))
 C11_StartSeesGiven(xs) == SeenAtStart(xs) = xs
 C11_RetrySeesSame(xs)  == /\ PosView(SeenAtRetry(xs)) = PosView(SeenAtStart(xs))
                           /\ NamedView(SeenAtStart(xs)) \subseteq NamedView(SeenAtRetry(xs))
@@ -107,4 +109,7 @@ Init == ps \in {<<p>> : p \in One} \cup {<<p, r>> : p \in One, r \in {x \in One 
 Next == UNCHANGED ps
 C11_Start == C11_StartSeesGiven(ps)
 C11_Retry == C11_RetrySeesSame(ps)
+\* ... and so does a retry of the retry (recording what the retry saw and reading it back changes nothing any more)
+C11_RetryOfRetry == /\ PosView(SeenAtRetry2(ps)) = PosView(SeenAtStart(ps))
+                    /\ NamedView(SeenAtRetry(ps)) \subseteq NamedView(SeenAtRetry2(ps))
 =============================================================================
